@@ -1,6 +1,6 @@
 """C09, public entry points: the real trappist() / compute_fixed_point_reduced_STG() are called on a symbolic network in
-both input forms (BooleanNetwork, Petri net) with symbolic problem kind, enclosing subspace, one avoided subspace,
-explicit or default source list and solution limit.  The answer of every call is an observation against the
+both input forms (BooleanNetwork, Petri net) with symbolic problem kind, enclosing subspace, 
+explicit or default source list, up to two avoided subspaces and solution limit.  The answer of every call is an observation against the
 definition (engine/oracles.py: w_trappist / w_rfp); a disagreement on a representative is a violation, replayed with
 real clingo and judged by the explicit reference.  This covers the glue around the lifted encodings of checks/C09.py
 (default source detection, variable lists, limits)."""
@@ -13,17 +13,19 @@ from engine.ref import ConcreteNet, refines
 
 def declare(n):
     vs, cs = [], []
-    for nm in ("ens", "avo"):
+    for nm in ("ens", "avo", "avb"):
         for i in range(n):
             v = z3.Int(f"{nm}{i}")
             vs.append(v)
             cs += [v >= -1, v <= 1]
-    vs += [z3.Bool("use_avoid"), z3.Bool("as_bn"), z3.Bool("default_sources"), z3.Bool("reverse"), z3.Int("problem"), z3.Int("limit")]
+    vs += [z3.Bool("use_avoid2"), z3.Bool("use_avoid"), z3.Bool("as_bn"), z3.Bool("default_sources"), z3.Bool("reverse"), z3.Int("problem"), z3.Int("limit")]
     cs += [z3.Int("problem") >= 0, z3.Int("problem") <= 2, z3.Int("limit") >= -1, z3.Int("limit") <= 4]
     # 'max' needs a free variable in the enclosing subspace
     cs.append(z3.Or([z3.Int(f"ens{i}") == -1 for i in range(n)]))
     # the avoided subspace is non-empty (the empty one makes trappist emit an empty-body constraint)
     cs.append(z3.Implies(z3.Bool("use_avoid"), z3.Or([z3.Int(f"avo{i}") >= 0 for i in range(n)])))
+    # an optional second avoided subspace (only together with the first; non-empty)
+    cs.append(z3.Implies(z3.Bool("use_avoid2"), z3.And(z3.Bool("use_avoid"), z3.Or([z3.Int(f"avb{i}") >= 0 for i in range(n)]))))
     return vs, cs
 
 
@@ -33,6 +35,9 @@ def read(names, hist, symbolic):
         ens = {nm: t for i, nm in enumerate(names) if (t := SymInt(z3.Int(f"ens{i}")).concrete()) >= 0}
         use_avoid = CTX.obs(z3.Bool("use_avoid"))
         avo = {nm: t for i, nm in enumerate(names) if (t := SymInt(z3.Int(f"avo{i}")).concrete()) >= 0} if use_avoid else None
+        avo = [avo] if avo else []
+        if use_avoid and CTX.obs(z3.Bool("use_avoid2")):
+            avo.append({nm: t for i, nm in enumerate(names) if (t := SymInt(z3.Int(f"avb{i}")).concrete()) >= 0})
         as_bn = CTX.obs(z3.Bool("as_bn"))
         dsrc = CTX.obs(z3.Bool("default_sources"))
         rev = CTX.obs(z3.Bool("reverse"))
@@ -42,6 +47,9 @@ def read(names, hist, symbolic):
         ens = {nm: int(hist[f"ens{i}"]) for i, nm in enumerate(names) if hist.get(f"ens{i}", -1) >= 0}
         use_avoid = bool(hist.get("use_avoid"))
         avo = {nm: int(hist[f"avo{i}"]) for i, nm in enumerate(names) if hist.get(f"avo{i}", -1) >= 0} if use_avoid else None
+        avo = [avo] if avo else []
+        if use_avoid and hist.get("use_avoid2"):
+            avo.append({nm: int(hist[f"avb{i}"]) for i, nm in enumerate(names) if hist.get(f"avb{i}", -1) >= 0})
         as_bn, dsrc = bool(hist.get("as_bn")), bool(hist.get("default_sources"))
         rev = bool(hist.get("reverse"))
         problem = ("min", "max", "fix")[int(hist.get("problem", 0))]
@@ -55,7 +63,7 @@ def execute(rules, names, hist, symbolic):
     bn = SDM.cleanup_network(SDM.BooleanNetwork.from_bnet(rules))
     pn = SDM.network_to_petrinet(bn)
     src = None if dsrc else list(SDM.extract_source_variables(pn))
-    r = ops.guarded(lambda: SDM.trappist(bn if as_bn else pn, problem=problem, reverse_time=rev, ensure_subspace=ens, avoid_subspaces=[avo] if avo else [],
+    r = ops.guarded(lambda: SDM.trappist(bn if as_bn else pn, problem=problem, reverse_time=rev, ensure_subspace=ens, avoid_subspaces=list(avo),
                                          optimize_source_variables=src, solution_limit=lim))
     out = {"exc": r["exc"], "msg": r.get("msg"), "args": {"ensure": ens, "avoid": avo, "as_bn": as_bn, "default_sources": dsrc, "problem": problem, "limit": lim, "reverse": rev}}
     if r["exc"] is None:
@@ -63,7 +71,7 @@ def execute(rules, names, hist, symbolic):
     # the reduced-STG solver with the enclosing space as retained set on its free complement is exercised through the
     # candidate pipeline (C08); here: plain fixed points of the net under the same ensure / avoid
     r2 = ops.guarded(lambda: SDM.compute_attractor_candidates.__globals__["compute_fixed_point_reduced_STG"](
-        pn, {}, ensure_subspace=ens, avoid_subspaces=[avo] if avo else [], solution_limit=lim))
+        pn, {}, ensure_subspace=ens, avoid_subspaces=list(avo), solution_limit=lim))
     out["rfp_exc"] = r2["exc"]
     if r2["exc"] is None:
         out["rfp"] = [ops._t(names, s) for s in r2["ret"]]
@@ -80,7 +88,7 @@ def assertion(B, out, symbolic):
     t = lambda d: tuple((int(d[nm]) if d and nm in d else None) for nm in B.names)
     E = (None,) * n
     ens = t(a["ensure"])
-    avoid = (t(a["avoid"]),) if a["avoid"] else ()
+    avoid = tuple(t(x) for x in (a["avoid"] or []))
     ans = [tuple(x) for x in out["answer"]]
     parts.append(("no duplicate answers", B.const(len(set(ans)) == len(ans))))
     # sources: identity update functions (default and explicit lists coincide by definition)
